@@ -161,3 +161,112 @@ package unionstore
 //@   ensures deleted: gHas(us.memBuffer, k) && gVal(us.memBuffer, k) == "" ==> result1 != nil
 //@   ensures live: gHas(us.memBuffer, k) && gVal(us.memBuffer, k) != "" ==> (result1 == nil || !tikverr.IsErrNotFound(result1))
 //@   ensures absent: result1 != nil && tikverr.IsErrNotFound(result1) ==> (gHas(us.memBuffer, k) && gVal(us.memBuffer, k) == "") || (!gHas(us.memBuffer, k) && (!gHas(us.snapshot, k) || gVal(us.snapshot, k) == ""))
+
+// ---- C16: the pipelined buffer ---------------------------------------------------------------------------------------
+// The tiers of a PipelinedMemDB, each an abstract map (gHas/gVal): the mutable memDB, the memDB being flushed (may be
+// nil), and the remote tier read through bufferBatchGetter (what earlier flushes wrote to the store). The ART memdb is
+// not under contract: its GetLocal is assumed to answer its content.
+//@ func (*artDBWithContext) GetLocal
+//@   trusted
+//@   bytes: key
+//@   modifies nothing
+//@   ensures result1 == nil ==> gHas(db, k) && result0 == gVal(db, k)
+//@   ensures result1 != nil && tikverr.IsErrNotFound(result1) ==> !gHas(db, k)
+
+// the remote tier: a fresh map with exactly the requested keys it has
+//@ functype BufferBatchGetter
+//@   trusted
+//@   bytes: key
+//@   modifies nothing
+//@   ensures result1 == nil ==> result0 != nil && fresh(result0)
+//@   ensures result1 == nil ==> forall k []byte :: inDom(result0, string(k)) <==> (inKeys(keys, k) && gHas(fn, k))
+//@   ensures result1 == nil ==> forall k []byte :: inDom(result0, string(k)) ==> result0[string(k)].Value == gVal(fn, k)
+//@   ensures result1 != nil ==> !tikverr.IsErrNotFound(result1)
+
+// what lies below the mutable tier, and the value a read must return: mutable first, then flushing, then remote
+//@ spec func lowerHas(p *PipelinedMemDB, k []byte) bool { return (p.flushingMemDB != nil && gHas(p.flushingMemDB, k)) || gHas(p.bufferBatchGetter, k) }
+//@ spec func lowerVal(p *PipelinedMemDB, k []byte) []byte { return ite(p.flushingMemDB != nil && gHas(p.flushingMemDB, k), gVal(p.flushingMemDB, k), gVal(p.bufferBatchGetter, k)) }
+//@ spec func readHas(p *PipelinedMemDB, k []byte) bool { return gHas(p.memDB, k) || lowerHas(p, k) }
+//@ spec func readVal(p *PipelinedMemDB, k []byte) []byte { return ite(gHas(p.memDB, k), gVal(p.memDB, k), lowerVal(p, k)) }
+
+// the prefetch cache never disagrees with the tiers: an entry for a key the mutable tier does not hold is what the lower
+// tiers answer (None = absent). (Entries for keys the mutable tier holds are never consulted: the mutable tier is read first.)
+//@ spec func cacheOK(p *PipelinedMemDB) bool { return forall k []byte :: inDom(p.batchGetCache, string(k)) ==> gHas(p.memDB, k) ||
+//@     ite(p.batchGetCache[string(k)].inner == nil, !lowerHas(p, k), lowerHas(p, k) && *p.batchGetCache[string(k)].inner == lowerVal(p, k)) }
+
+//@ func (*PipelinedMemDB) get
+//@   prop C16
+//@   bytes: key
+//@   requires cacheOK(p)
+//@   modifies nothing
+//@   ensures local: skipRemoteBuffer && result1 == nil ==> result0 == ite(gHas(p.memDB, k), gVal(p.memDB, k), gVal(p.flushingMemDB, k)) && (gHas(p.memDB, k) || (p.flushingMemDB != nil && gHas(p.flushingMemDB, k)))
+//@   ensures localmiss: skipRemoteBuffer && result1 != nil && tikverr.IsErrNotFound(result1) ==> !gHas(p.memDB, k) && !(p.flushingMemDB != nil && gHas(p.flushingMemDB, k))
+//@   ensures value: !skipRemoteBuffer && result1 == nil ==> readHas(p, k) && result0 == readVal(p, k)
+//@   ensures miss: !skipRemoteBuffer && result1 != nil && tikverr.IsErrNotFound(result1) ==> !readHas(p, k)
+
+//@ func (*PipelinedMemDB) Get
+//@   prop C16
+//@   bytes: key
+//@   requires cacheOK(p)
+//@   modifies nothing
+//@   ensures value: result1 == nil ==> readHas(p, k) && result0.Value == readVal(p, k)
+//@   ensures miss: result1 != nil && tikverr.IsErrNotFound(result1) ==> !readHas(p, k)
+
+//@ func (*PipelinedMemDB) GetLocal
+//@   prop C16
+//@   bytes: key
+//@   requires cacheOK(p)
+//@   modifies nothing
+//@   ensures local: result1 == nil ==> result0 == ite(gHas(p.memDB, key), gVal(p.memDB, key), gVal(p.flushingMemDB, key)) && (gHas(p.memDB, key) || (p.flushingMemDB != nil && gHas(p.flushingMemDB, key)))
+//@   ensures localmiss: result1 != nil && tikverr.IsErrNotFound(result1) ==> !gHas(p.memDB, key) && !(p.flushingMemDB != nil && gHas(p.flushingMemDB, key))
+
+//@ spec func localHas(p *PipelinedMemDB, k []byte) bool { return gHas(p.memDB, k) || (p.flushingMemDB != nil && gHas(p.flushingMemDB, k)) }
+
+// BatchGet answers, for every requested key, what a point read answers (mutable, flushing, remote in that order), and
+// leaves the prefetch cache consistent with the tiers.
+//@ func (*PipelinedMemDB) BatchGet
+//@   prop C16
+//@   bytes: key
+//@   requires cacheOK(p)
+//@   ensures cache: cacheOK(p)
+//@   ensures same: p.memDB == old(p.memDB) && p.flushingMemDB == old(p.flushingMemDB) && p.bufferBatchGetter == old(p.bufferBatchGetter)
+//@   ensures value: result1 == nil ==> forall k []byte :: inDom(result0, string(k)) ==> inKeys(keys, k) && readHas(p, k) && result0[string(k)].Value == readVal(p, k)
+//@   ensures all: result1 == nil ==> forall k []byte :: inKeys(keys, k) && readHas(p, k) ==> inDom(result0, string(k))
+//@   loop 1 invariant cache: cacheOK(p) && p.batchGetCache != nil && m != nil && -1 <= rangeindex && rangeindex < len(keys)
+//@   loop 1 invariant same: p.memDB == old(p.memDB) && p.flushingMemDB == old(p.flushingMemDB) && p.bufferBatchGetter == old(p.bufferBatchGetter)
+//@   loop 1 invariant got: forall k []byte :: inDom(m, string(k)) ==> inKeys(keys, k) && localHas(p, k) && m[string(k)].Value == readVal(p, k)
+//@   loop 1 invariant done: forall i int :: 0 <= i && i <= rangeindex ==> ite(localHas(p, keys[i]), inDom(m, string(keys[i])), inKeys(shrinkKeys, keys[i]))
+//@   loop 1 invariant shrunk: forall j int :: 0 <= j && j < len(shrinkKeys) ==> !localHas(p, shrinkKeys[j]) && inKeys(keys, shrinkKeys[j])
+//@   loop 2 invariant cache: cacheOK(p) && p.batchGetCache != nil && m != nil && -1 <= rangeindex && rangeindex < len(shrinkKeys)
+//@   loop 2 invariant same: p.memDB == old(p.memDB) && p.flushingMemDB == old(p.flushingMemDB) && p.bufferBatchGetter == old(p.bufferBatchGetter)
+//@   loop 2 invariant got: forall k []byte :: inDom(m, string(k)) ==> inKeys(keys, k) && readHas(p, k) && m[string(k)].Value == readVal(p, k)
+//@   loop 2 invariant local: forall k []byte :: inKeys(keys, k) && localHas(p, k) ==> inDom(m, string(k))
+//@   loop 2 invariant remote: forall i int :: 0 <= i && i <= rangeindex ==> (gHas(p.bufferBatchGetter, shrinkKeys[i]) ==> inDom(m, string(shrinkKeys[i])))
+
+// ---- flushing ------------------------------------------------------------------------------------------------------
+// generations only ever go up by one (until the 64-bit counter would wrap, after 2^64-1 flushes)
+//@ field PipelinedMemDB.generation transition C16: old < 18446744073709551615 ==> new == old + 1
+
+// A flush that starts hands over the whole mutable buffer under the next generation, installs a brand-new empty
+// mutable buffer (so no mutation can be handed over twice), and starts only after the previous flush reported success;
+// the prefetch cache is dropped whenever the tiers may change. Without a start nothing moves.
+//@ func (*PipelinedMemDB) Flush
+//@   prop C16
+//@   ensures dropped: old(p.flushFunc) != nil ==> p.batchGetCache == nil
+//@   ensures started: result0 ==> result1 == nil && (old(p.generation) < 18446744073709551615 ==> p.generation == old(p.generation) + 1) && p.flushingMemDB == old(p.memDB) && p.memDB != old(p.memDB)
+//@   ensures idle: !result0 ==> p.generation == old(p.generation) && p.memDB == old(p.memDB)
+//@   ensures kept: !result0 && result1 == nil ==> p.flushingMemDB == old(p.flushingMemDB)
+//@   ensures waited: result0 && old(p.flushingMemDB) != nil ==> err == nil
+//@   at call(Flush$1) assert handed: (old(p.generation) < 18446744073709551615 ==> arg0 == old(p.generation) + 1) && p.flushingMemDB == old(p.memDB)
+
+// FlushWait consumes the outcome of the flush in flight (if any) and reports it.
+//@ func (*PipelinedMemDB) FlushWait
+//@   prop C16
+//@   ensures done: p.flushingMemDB == nil && p.memDB == old(p.memDB) && p.generation == old(p.generation)
+//@   ensures idle: old(p.flushingMemDB) == nil ==> result == nil
+
+// the error of a failed flush is never swallowed
+//@ func (*PipelinedMemDB) handleAlreadyExistErr
+//@   prop C16
+//@   modifies tikverr.ErrKeyExist.Value
+//@   ensures err != nil ==> result != nil
